@@ -251,6 +251,16 @@ func runCase(w *lib.Writer, in input, g *Generated, lays []Layout) {
 				fail(fmt.Sprintf("getinfo(func,'Sl') = %v disagrees with getinfo(level) %+v", bf, fi))
 			}
 		}
+		// a Go function on the stack (pcall, a metamethod dispatcher, ...) is defined on no line
+		for k, fi := range res.Info {
+			if fi.What == "G" && (fi.Cur != -1 || fi.LineDefined != -1 || fi.LastLine != -1) {
+				fail(fmt.Sprintf("point %d level %d is a Go function, getinfo gives lines %d/%d/%d (expected -1)", k[0], k[1], fi.Cur, fi.LineDefined, fi.LastLine))
+				break
+			}
+		}
+		for _, id := range res.ThreadSetBad {
+			fail(fmt.Sprintf("point %d: debug.setlocal(co, 1, 1, v) did not set the first local of the suspended coroutine", id))
+		}
 		// a level lost to a tail call: what = "tail", no variables
 		for _, l := range g.Lines {
 			if l.Mode == "none" && l.Src.Kind == "cur" {
@@ -326,6 +336,8 @@ func runCase(w *lib.Writer, in input, g *Generated, lays []Layout) {
 			mode = "LExact"
 		case "none":
 			mode = "LNone"
+		case "zero":
+			mode = "LZero"
 		}
 		lds = append(lds, fmt.Sprintf("(LDesc %s %d %d)", mode, l.SpecTok(), l.ImplTok()))
 	}
